@@ -808,6 +808,9 @@ func propC14(c *Ctx) {
 		if i%3 == 1 { // the process also decodes what peers send, in between
 			c14ForeignDecode(g)
 		}
+		if i%5 == 3 {
+			libNoise(g)
+		}
 		if i%4 == 2 {
 			c.c14DecodedThenSet(s1, g, idx)
 		}
